@@ -193,6 +193,58 @@ func writesBeforeFallible(events []string, allowed map[string]bool) []string {
 	return bad
 }
 
+// nodeSliceShares lists every expression that can make a new slice share the backing array of a
+// node's Key / Value / Link slice: `append(x.Field..., ...)` with a node slice as first argument,
+// and re-slicings `x.Field[a:b]`, per function.  (Copy-on-write needs fresh slices; a new entry in
+// this inventory is a place where two nodes may come to share memory.)
+func nodeSliceShares(fset *token.FileSet, files []string) []string {
+	var out []string
+	fields := map[string]bool{"Key": true, "Value": true, "Link": true}
+	isNodeSlice := func(e ast.Expr) bool {
+		for {
+			switch x := e.(type) {
+			case *ast.SliceExpr:
+				e = x.X
+				continue
+			case *ast.ParenExpr:
+				e = x.X
+				continue
+			case *ast.SelectorExpr:
+				return fields[x.Sel.Name]
+			}
+			return false
+		}
+	}
+	for _, rel := range files {
+		f := parseFile(fset, rel)
+		for _, d := range f.Decls {
+			fd, ok := d.(*ast.FuncDecl)
+			if !ok || fd.Body == nil {
+				continue
+			}
+			fname := fd.Name.Name
+			if fd.Recv != nil && len(fd.Recv.List) > 0 {
+				fname = exprString(fset, fd.Recv.List[0].Type) + "." + fname
+			}
+			ast.Inspect(fd.Body, func(n ast.Node) bool {
+				switch x := n.(type) {
+				case *ast.CallExpr:
+					if id, ok := x.Fun.(*ast.Ident); ok && id.Name == "append" && len(x.Args) > 0 && isNodeSlice(x.Args[0]) {
+						out = append(out, fmt.Sprintf("%s:%s: %s", rel, fname, exprString(fset, x)))
+					}
+				case *ast.SliceExpr:
+					if isNodeSlice(x.X) {
+						out = append(out, fmt.Sprintf("%s:%s: %s", rel, fname, exprString(fset, x)))
+					}
+				}
+				return true
+			})
+		}
+	}
+	sort.Strings(out)
+	return out
+}
+
 func collectFacts(group string) map[string]interface{} {
 	fset := token.NewFileSet()
 	facts := map[string]interface{}{}
@@ -290,6 +342,7 @@ func collectFacts(group string) map[string]interface{} {
 		facts["Delete.state_writes_before_other_fallible_calls"] = writesBeforeFallible(de, map[string]bool{"m.shrink": true})
 	case "writes":
 		facts["node_writes"] = nodeWrites(fset, []string{"lib.go", "pub.go", "store.go", "diff.go", "codec.go"})
+		facts["node_slice_shares"] = nodeSliceShares(fset, []string{"lib.go", "pub.go", "store.go", "diff.go", "codec.go"})
 	case "filestore":
 		st := findFunc(parseFile(fset, "persist/file/lib.go"), "Persist", "Store")
 		ord := orderOf(fset, st, []string{"os.Stat(path)", "os.CreateTemp(", "tmp.Write(bytes)", "tmp.Close()", "os.Rename(tmp.Name(), path)"})
